@@ -12,7 +12,7 @@ CLAIMED = {
    design="§3 C02, §2"),
  "C05": dict(
    technique="exhaustive enumeration over the golden corpus and a bounded string-escaping grammar x styles x charset flag; structural invariants by an independent CSS reader and a fixed-point relation on canonical trees",
-   text="For every compiling corpus input and every string of <= 2 (thorough 3) pieces over a 20-piece escaping alphabet in 15 string-bearing positions, x {expanded, compressed} x {charset on, off}: the output is valid UTF-8, carries @charset/BOM exactly when non-ASCII and allowed, is balanced (independent reader), contains no Sass-only syntax, and re-compiling it as CSS and as SCSS succeeds and reproduces the same canonical tree.",
+   text="For every compiling corpus input and every string of <= 2 (thorough 3) pieces over a 20-piece escaping alphabet in 15 string-bearing positions, x {expanded, compressed} x {charset on, off}: the output is valid UTF-8, carries @charset/BOM exactly when non-ASCII and allowed, is balanced (independent reader), contains no Sass-only syntax, and re-compiling it as CSS and as SCSS succeeds and reproduces the same canonical tree. Further sub-spaces: sequences of <= 3 (thorough 4) top-level statements / rule children over invisible and body-less statements; every @supports condition tree of depth <= 2; 19 selector frames x 7 fillers with placeholders; case variants of Sass function names as plain CSS functions and numbers that round to zero; identifiers with escaped punctuation.",
    note="Domain per the property: outputs whose declaration values are CSS component values (positive grammar in the harness); outputs of inspect()-style printing, and inputs that splice text with interpolation/unquote (which can spell calls Sass evaluates on re-reading), are counted as excluded from the fixed-point relation, not from the structural invariants.",
    design="§3 C05"),
  "C06": dict(
@@ -32,7 +32,7 @@ CLAIMED = {
    design="§3 C09"),
  "C13": dict(
    technique="exhaustive enumeration of virtual directory layouts (environment answers) x URL forms x rule kinds x load-path lists, through a tracing in-memory Fs, against a reference resolver",
-   text="8 URL forms x {@import, @use, @forward} x 2 (thorough 4) load-path lists x 1 (thorough 2) importer locations x (no file, every single candidate, every pair of candidates; thorough: every triple for the plain URL): the loaded file (marker in the output) or the error must be the reference resolver's answer, the error must be located at the import statement, every Fs call must be on a candidate path of that search, and decoy files on the real disk (the process runs inside a directory holding them) must never be read; 11 plain-CSS import forms must be emitted verbatim without any Fs call.",
+   text="8 URL forms x {@import, @use, @forward} x 2 (thorough 4) load-path lists x 1 (thorough 2) importer locations x (no file, every single candidate, every pair of candidates; thorough: every triple for the plain URL): the loaded file (marker in the output) or the error must be the reference resolver's answer, the error must be located at the import statement, every Fs call must be on a candidate path of that search, and decoy files on the real disk (the process runs inside a directory holding them) must never be read; 11 plain-CSS import forms must be emitted verbatim without any Fs call. Further: the same URL from two importers in both orders over all 2^7 candidate subsets and both load-path orders; a relative load after a load that resolved into another directory (6 first loads x 2 rules x 2 importer locations x 4 decoy sets).",
    note="Layouts where two same-priority candidates coexist are excluded as the property states. The in-memory Fs normalises paths lexically.",
    design="§3 C13, A.3"),
  "C14": dict(
@@ -42,12 +42,12 @@ CLAIMED = {
    design="§3 C14"),
  "C18": dict(
    technique="exhaustive enumeration of statement trees printed by two independent printers, and of token-preserving rewrites of every corpus input, compared as metamorphic relations",
-   text="All statement trees of depth <= 2 over a 21-template alphabet printed as SCSS and as indented syntax must compile identically; every corpus input under CRLF/CR/FF line terminators, BOM and @charset prefixes, leading/trailing blank lines; every corpus input the CSS parser accepts compiled as CSS and as SCSS; 30 Sass-only constructs rejected in CSS mode; whitespace and silent comments inserted after every `{` `;` `}` (one at a time and all at once) of every compiling SCSS corpus input; 12 definition/use templates x 5 name pairs with `_` and `-` exchanged at definition, use, or both.",
+   text="All statement trees of depth <= 2 over a 21-template alphabet printed as SCSS and as indented syntax must compile identically; every corpus input under CRLF/CR/FF line terminators, BOM and @charset prefixes, leading/trailing blank lines; every corpus input the CSS parser accepts compiled as CSS and as SCSS; 30 Sass-only constructs rejected in CSS mode; whitespace and silent comments inserted after every `{` `;` `}` (one at a time and all at once) of every compiling SCSS corpus input; 12 definition/use templates x 5 name pairs with `_` and `-` exchanged at definition, use, or both. Further: whitespace-only lines after every line of the indented text; whitespace / comments next to `(` `)` `,` in argument lists; every single space of corpus inputs replaced by newline / tab / CRLF; 2-3 adjacent lines over 7 line kinds and @if/@else trees of depth <= 2 (3) in both syntaxes; entries in one syntax loading libraries in another.",
    note="Noise is only inserted where it is lexically insignificant (outside strings, comments, parentheses, interpolation and custom properties). Prefix/suffix rewrites are applied to compiling inputs only.",
    design="§3 C18"),
  "C20": dict(
    technique="complete product enumeration of CLI flags x input kinds x source/sink modes, each real process run compared with the library called in-process",
-   text="2^5 flag combinations x {file argument, --stdin} x {stdout, output file, unwritable output file} x 15 input kinds (1 900 process runs of the real binary built from /repo with the guard off): stdout/output file equals the library's CSS and exit 0; on a compile error exit != 0, stderr equals the warnings logged so far plus the library's rendered error, stdout empty; on I/O errors exit != 0 with a message and no CSS; warnings/debug on stderr only and absent with --quiet. Thorough adds every SCSS corpus input through --stdin under 8 style/charset/unicode combinations.",
+   text="2^5 flag combinations x {file argument, --stdin} x {stdout, output file, unwritable output file} x 15 input kinds (1 900 process runs of the real binary built from /repo with the guard off): stdout/output file equals the library's CSS and exit 0; on a compile error exit != 0, stderr equals the warnings logged so far plus the library's rendered error, stdout empty; on I/O errors exit != 0 with a message and no CSS; warnings/debug on stderr only and absent with --quiet. Thorough adds every SCSS corpus input through --stdin under 8 style/charset/unicode combinations. Further: every sequence of 1..3 --load-path options over 3 directories x {@import, @use} x {file, --stdin}; 6 states of the output file before the run x 2 styles x {compiling, failing}; 4 output sizes written to /dev/full.",
    note="StdLogger's text format is reproduced by the harness from the events a collecting Logger receives. Flag combinations the CLI cannot express (--stdin with an output file) are skipped.",
    design="§3 C20"),
 
@@ -63,13 +63,13 @@ CLAIMED = {
    design="§3 C08"),
  "C15": dict(
    technique="complete enumeration of named and short-hex colours and an RGB lattice (thorough: all 2^24 colours, looped inside the compiled program), algebraic laws plus reference colour math",
-   text="All 148 named colours against an independent CSS table and all their spellings in compressed output; all 4096 #rgb and 65536 #rgba literals against long and functional spellings; a 33^3 lattice, two full cube faces and one full slice (thorough: the whole 2^24 cube) under 23 laws per colour (channel integrity, HSL and HWB accessor round trips, involutions, by-zero identities, mix 0/100, opacity, spellings); accessors and hsl()/hwb() constructors against the CSS conversion formulas; 27 call shapes with arguments at, inside and just outside their legal ranges (range invariant); adjust/scale/change-color on RGB channels against the documented formulas.",
+   text="All 148 named colours against an independent CSS table and all their spellings in compressed output; all 4096 #rgb and 65536 #rgba literals against long and functional spellings; a 33^3 lattice, two full cube faces and one full slice (thorough: the whole 2^24 cube) under 23 laws per colour (channel integrity, HSL and HWB accessor round trips, involutions, by-zero identities, mix 0/100, opacity, spellings); accessors and hsl()/hwb() constructors against the CSS conversion formulas; 27 call shapes with arguments at, inside and just outside their legal ranges (range invariant); adjust/scale/change-color on RGB channels against the documented formulas. Further: 11 constructor shapes x 12 alpha spellings (numbers / percentages in and out of range); mix() with transparent operands at weights 0/25/50/100%; scale-color on every channel value x every integer (thorough 0.1%) percentage against exact integer arithmetic; the opacity functions on all 148 names.",
    note="`==` on colours is the implementation's own (cross-checked by channel accessors). Reference formulas are f64 with tolerance 1e-6, and +-1 channel step is accepted only at exact rounding ties. Alpha is sampled on 16 steps.",
    design="§3 C15"),
 
  "C17": dict(
    technique="explicit enumeration of all query pairs/triples over a 63-query alphabet; truth-table oracle over all 24 media environments, every case executed on the implementation",
-   text="Bounded exhaustive model checking of the media-merge function through the public API: every ordered pair (thorough: every ordered triple and every 2-list x single in both nesting orders) of the 63-query alphabet is compiled, the emitted @media structure is read back by an independent reader and evaluated in all 24 media environments against the conjunction of the source queries. The alphabet covers every branch of MediaQuery::merge (type-less, all, equal/different types, not/only/no modifier, subset/non-subset feature sets).",
+   text="Bounded exhaustive model checking of the media-merge function through the public API: every ordered pair (thorough: every ordered triple and every 2-list x single in both nesting orders) of the 63-query alphabet is compiled, the emitted @media structure is read back by an independent reader and evaluated in all 24 media environments against the conjunction of the source queries. The alphabet covers every branch of MediaQuery::merge (type-less, all, equal/different types, not/only/no modifier, subset/non-subset feature sets). Further (both tiers): 2-lists over a 16-query sub-alphabet x every single query in both nesting orders; (list of 2) > (list of 2) > single over a 7-query sub-alphabet; 3 `or` queries and 4 queries with negated conditions against the whole alphabet in both orders.",
    note="Assumes features are independent opaque booleans and three media types suffice (screen, print, and one type mentioned by no query). Pairs of two negated queries of the same type are excluded as the property states. Queries longer than 3 features, case variants and interpolated query text are outside the alphabet.",
    design="§3 C17"),
  "C03": dict(
@@ -79,17 +79,17 @@ CLAIMED = {
    design="§3 C03, A.1"),
  "C10": dict(
    technique="exhaustive enumeration of @extend programs; semantic oracle: every emitted selector list judged on every DOM tree of <= 3 elements over the program's features by an independent selector matcher",
-   text="23 target selectors x 9 extenders x 8 targets x 2 rule orders, 8 two-extend shapes (chains, cycles, shared targets) under every rule permutation, shared pseudo arguments and trimming shapes (3.4k programs); for each, on every DOM of <= 3 (thorough 4) elements: every element matched by the output would be matched by the source rule once extenders are credited with their targets (soundness), every credited element is matched when the extender is a single compound (completeness), original selectors survive (first law), specificity does not drop (second law), no placeholder is emitted; 11 error/scope shapes (missing target with/without !optional, complex targets, across and inside @media).",
+   text="23 target selectors x 9 extenders x 8 targets x 2 rule orders, 8 two-extend shapes (chains, cycles, shared targets) under every rule permutation, shared pseudo arguments and trimming shapes (3.4k programs); for each, on every DOM of <= 3 (thorough 4) elements: every element matched by the output would be matched by the source rule once extenders are credited with their targets (soundness), every credited element is matched when the extender is a single compound (completeness), original selectors survive (first law), specificity does not drop (second law), no placeholder is emitted; 11 error/scope shapes (missing target with/without !optional, complex targets, across and inside @media). Further: 6 rules x 4 three-compound extenders judged on DOMs of 4 elements; 5 target rules holding a nested @media / @supports / unknown at-rule x 4 extenders x both orders (both parts of the rule carry the same selector).",
    note="Complex extenders are judged for soundness only (Sass deliberately omits interleavings); extenders and targets under :not() with complex extenders are excluded. Open findings: missing-target and cross-@media errors are not raised; extension chains declared before their target or through a type selector lose members.",
    design="§3 C10"),
  "C11": dict(
    technique="complete enumeration of ordered selector pairs over a 45-selector alphabet for every sass:selector function; semantic oracle on all DOM trees of <= 3 elements; cross-validation against the @extend / nesting machinery",
-   text="All 45^2 ordered pairs of a 45-selector alphabet: every is-superselector `true` answer verified on every DOM of <= 3 (thorough 4) elements; every non-null selector-unify result matches only what both inputs match on every DOM, and null is refused for conflict-free compounds; selector-nest on all ordered pairs and selector-append with 5 suffixes equal the selector of the equivalent nested style rule compiled in the same stylesheet; selector-extend (45 selectors x 6 targets x 6 extenders) equals the rewritten selector of the corresponding @extend program as a set of complex selectors and selector-replace is contained in it; selector-parse then print keeps the match set on every DOM. A panic anywhere is a violation.",
+   text="All 45^2 ordered pairs of a 45-selector alphabet: every is-superselector `true` answer verified on every DOM of <= 3 (thorough 4) elements; every non-null selector-unify result matches only what both inputs match on every DOM, and null is refused for conflict-free compounds; selector-nest on all ordered pairs and selector-append with 5 suffixes equal the selector of the equivalent nested style rule compiled in the same stylesheet; selector-extend (45 selectors x 6 targets x 6 extenders) equals the rewritten selector of the corresponding @extend program as a set of complex selectors and selector-replace is contained in it; selector-parse then print keeps the match set on every DOM. A panic anywhere is a violation. simple-selectors() on 27 compounds (parts spell the selector) and 11 non-compound inputs (no crash).",
    note="DOMs are trees and forests of <= 3 (thorough 4) elements (a forest stands for a tree with one more, unlabelled, root) with labels over the features the judged selectors mention plus one unmentioned type; attribute and pseudo selectors with different text are independent opaque features. ::slotted and :not() with complex arguments are outside the alphabet for extend.",
    design="§3 C11"),
  "C12": dict(
    technique="exhaustive enumeration of module graphs (every edge kind between every ordered module pair) and of member-visibility / configuration shapes over an in-memory file system, against a reference module model",
-   text="All 4^3 (thorough 4^6) graphs over 3 (4) modules with edges i<j in {none, @use, @use as *, @forward}: each module is evaluated once (observed through @debug), CSS is emitted once in dependency order, every variable/function/mixin/private probe through every namespace and bare resolves or fails as the reference visibility model says, and assignments through two namespaces of one module are shared; every 1-, 2- and 3-cycle of @use/@forward is an error; 12 forwarding shapes (show/hide of each member kind, prefix, prefix+show/hide) x 3 @use forms x 13 member probes; 19 `with` shapes (!default / non-default / unknown / private / duplicate variables, already-loaded modules, configuration through plain, prefixed, show/hide and pre-configured @forward); 6 x 6 spellings of one partial from two importers load one module; 64 module functions against their global aliases.",
+   text="All 4^3 (thorough 4^6) graphs over 3 (4) modules with edges i<j in {none, @use, @use as *, @forward}: each module is evaluated once (observed through @debug), CSS is emitted once in dependency order, every variable/function/mixin/private probe through every namespace and bare resolves or fails as the reference visibility model says, and assignments through two namespaces of one module are shared; every 1-, 2- and 3-cycle of @use/@forward is an error; 12 forwarding shapes (show/hide of each member kind, prefix, prefix+show/hide) x 3 @use forms x 13 member probes; 19 `with` shapes (!default / non-default / unknown / private / duplicate variables, already-loaded modules, configuration through plain, prefixed, show/hide and pre-configured @forward); 6 x 6 spellings of one partial from two importers load one module; 64 module functions against their global aliases. Further: assignment of every (and of an undefined) variable through every namespace; 1..4 intermediate modules loading one leaf by @use or @forward with the entry loading it first / last / not (evaluated once, no false cycle).",
    note="The in-memory Fs canonicalises paths lexically; member names carry the module index so that no accidental conflicts arise in the graph space.",
    design="§3 C12"),
  "C16": dict(
@@ -99,7 +99,7 @@ CLAIMED = {
    design="§3 C16"),
  "C19": dict(
    technique="exhaustive enumeration of failing inputs (C01's generators) with a location oracle against the supplied file texts, and of logging programs x configurations against the reference interpreter's delivery sequence; process streams captured around a child process",
-   text="Error locations: every token string of length <= 2 (thorough <= 3 in 8 contexts) over the 46-token alphabet in 22 contexts x {scss, indented}; every built-in x argument tuple of arity <= 2 over the 40-value universe; 49 value positions x the universe; every error!() corpus input (thorough: every single-token deletion of compiling corpus inputs); 12 interpolated strings x 18 re-lexed positions x 3 prefixes; 16 failing snippets x 6 load rules x {direct, through an intermediate file, inside a mixin / function defined in the imported file}: each error names a file of the compilation, carries that file's text, begin <= end lie inside it, both renderings succeed and start with `Error: <message>` and show the location, ASCII mode has no box characters. @error: 40 values x 5 placements, message = inspect() text, line = the directive's. Delivery: 12 program shapes x 7x7 @debug/@warn statement pairs x {one file, @import, @use as *} x 5 executions on one thread (plain, quiet, quiet+ASCII, ASCII, plain again): kind, message, file, line and order equal the reference interpreter's log with repeated (directive, message) warnings collapsed; nothing under quiet. Silence: a child process compiling the logging, failing and warning-raising programs with a collecting Logger leaves both process streams empty.",
+   text="Error locations: every token string of length <= 2 (thorough <= 3 in 8 contexts) over the 46-token alphabet in 22 contexts x {scss, indented}; every built-in x argument tuple of arity <= 2 over the 40-value universe; 49 value positions x the universe; every error!() corpus input (thorough: every single-token deletion of compiling corpus inputs); 12 interpolated strings x 18 re-lexed positions x 3 prefixes; 16 failing snippets x 6 load rules x {direct, through an intermediate file, inside a mixin / function defined in the imported file}: each error names a file of the compilation, carries that file's text, begin <= end lie inside it, both renderings succeed and start with `Error: <message>` and show the location, ASCII mode has no box characters. @error: 40 values x 5 placements, message = inspect() text, line = the directive's. Delivery: 12 program shapes x 7x7 @debug/@warn statement pairs x {one file, @import, @use as *} x 5 executions on one thread (plain, quiet, quiet+ASCII, ASCII, plain again): kind, message, file, line and order equal the reference interpreter's log with repeated (directive, message) warnings collapsed; nothing under quiet. Silence: a child process compiling the logging, failing and warning-raising programs with a collecting Logger leaves both process streams empty. Delivery programs also with CRLF and CR line terminators; the compiler's own warning (meta.load-css with $with) x quiet.",
    note="Whether a quoted string reaches the Logger with its quotes in @warn is not compared (grass delivers `\"x\"`, dart-sass `x`; the property does not fix it). Loop heads with huge bounds are excluded from the value positions (unbounded loops).",
    design="§3 C19"),
  "C04": dict(
